@@ -106,10 +106,43 @@ let sample_indices (n : int) : int list =
 let two64 = Z.shift_left Z.one 64
 let u64max = Z.pred two64
 
+(* ---- selection strategies for the partial traversals (same function in harness/src/c02.rs) ----
+   key 0: the children of entries whose offset is a multiple of 3 are not requested;
+   key = 1 mod 4: entries below the root that have children but no DW_AT_sibling are not descended
+                  into (the parent's iterator has to scan their subtree, meeting whatever sibling
+                  pointers sit inside);
+   key = 2 mod 4: of such entries only the first child is visited, then the walk returns to the
+                  parent's list;
+   otherwise a hash of (offset, tag, key) decides: skip / 0 / 1 / 2 children / all. *)
+let big_nat = nat_of_int 100000
+let has_sib_attr (d : die) =
+  List.exists (fun ((s : Attr.aspec), _) -> Z.equal (z_of_n s.Attr.at_name) Z.one) d.d_attrs
+let mix8 (off : Z.t) (tag : Z.t) (key : int) : int =
+  let m64 z = Z.logand z u64max in
+  let c s = Z.of_string s in
+  let x = Z.logxor (Z.logxor (m64 (Z.mul off (c "0x9E3779B97F4A7C15"))) (m64 (Z.mul tag (c "0xC2B2AE3D27D4EB4F"))))
+      (m64 (Z.mul (Z.of_int key) (c "0x165667B19E3779F9"))) in
+  let x = Z.logxor x (Z.shift_right x 29) in
+  let x = m64 (Z.mul x (c "0xBF58476D1CE4E5B9")) in
+  let x = Z.logxor x (Z.shift_right x 32) in
+  Z.to_int (Z.logand (Z.shift_right x 40) (Z.of_int 7))
+let sel_of_key (key : int) (d : die) : Datatypes.nat option =
+  let off = z_of_n d.d_offset and tag = z_of_n d.d_tag in
+  let all = Some big_nat in
+  let bare = Z.sign (z_of_cz d.d_depth) > 0 && d.d_children && not (has_sib_attr d) in
+  if key = 0 then (if Z.sign (Z.rem off (Z.of_int 3)) = 0 then None else all)
+  else match key land 3 with
+    | 1 -> if bare then None else all
+    | 2 -> if bare then Some (nat_of_int 1) else all
+    | _ -> (match mix8 off tag key with
+            | 0 | 1 -> None | 2 -> Some Datatypes.O | 3 -> Some (nat_of_int 1) | 4 -> Some (nat_of_int 2) | _ -> all)
+let sel_all (_ : die) : Datatypes.nat option = Some big_nat
+let show_odt (d : die) = spf "%s:%s:%s" (sn d.d_offset) (sz d.d_depth) (sn d.d_tag)
+
 (* ---- every navigation style, evaluated on the model ---- *)
 let rec flat_dtree (t : dtree) : die list = match t with DNode (d, ks) -> d :: List.concat_map flat_dtree ks
 
-let model_styles ~nav dbg (h : DieRd.unit_header) (tbl : AbbrevRd.abbrevs) : string =
+let model_styles ~nav ~key dbg (h : DieRd.unit_header) (tbl : AbbrevRd.abbrevs) : string =
   let e = h.DieRd.u_enc in
   let tok full name s = spf "%s=%s" name (if full then s else fnv s) in
   let raw_dies, raw_err =
@@ -158,12 +191,25 @@ let model_styles ~nav dbg (h : DieRd.unit_header) (tbl : AbbrevRd.abbrevs) : str
       if full_die then with_err ";" (List.map show_die l) err
       else with_err "," (List.map show_od l) err in
   let tree_s = tree_of None true in
-  let skip_s =
+  (* partial traversals with the tree iterator: strategy 0 and strategy `key` (Model/TreeWalk.v);
+     strategy 0 is also run through the older model function walk_sel, which must agree *)
+  let skip_one k =
     match r3 (DieRd.entries_tree dbg h None) with
     | Error x -> "!" ^ Errnames.name x
     | Ok t ->
-      let (l, err) = must (DieRd.walk_tree_sel dbg e tbl DieRd.sel_mod3 t) in
-      with_err "," (List.map show_od l) err in
+      let (l, err) = must (TreeWalk.walk_tree_plan dbg e tbl (sel_of_key k) t) in
+      let s = with_err "," (List.map show_od l) err in
+      if k = 0 then begin
+        let (l0, err0) = must (DieRd.walk_tree_sel dbg e tbl DieRd.sel_mod3 t) in
+        if with_err "," (List.map show_od l0) err0 <> s then raise (Stop "model-inconsistent walk_sel/walk_plan")
+      end;
+      s in
+  let skip_s = skip_one 0 ^ "|" ^ skip_one key in
+  (* the cloned-cursor recursion next_entry-to-first-child + next_sibling: everything, and strategy `key` *)
+  let walk_one sel =
+    let (l, err) = must (TreeWalk.walk_cursor dbg e tbl sel big_nat (cur0 ())) in
+    with_err ";" (List.map show_odt l) err in
+  let walk_s = if nav then "" else walk_one sel_all ^ "|" ^ walk_one (sel_of_key key) in
   let at_s = per_off (fun o ->
     match r3 (DieRd.entry_at dbg h tbl o) with
     | Error x -> "!" ^ Errnames.name x | Ok d -> show_die d) in
@@ -176,6 +222,7 @@ let model_styles ~nav dbg (h : DieRd.unit_header) (tbl : AbbrevRd.abbrevs) : str
   let sub_s = per_off (fun o -> tree_of (Some o) false) in
   String.concat " "
     ([ tok true "raw" raw_s; tok nav "ent" ent_s; tok nav "dfs" dfs_s; tok nav "sib" sib_s ]
+     @ (if nav then [] else [ tok false "walk" walk_s ])
      @ [ tok nav "tree" tree_s; tok nav "skip" skip_s; tok nav "at" at_s; tok nav "from" from_s; tok nav "sub" sub_s ])
 
 (* first token of a result line: `ok`, or `raw!<Error>` when raw reading ended in an error (feeds the
@@ -187,14 +234,14 @@ let class_of (line : string) : string =
   (if String.length last > 0 && last.[0] = '!' then "raw" ^ last else "ok") ^ " " ^ line
 
 (* the whole result line for one unit + abbreviation section, from the model *)
-let model_line ~nav dbg bigend types (info : Byte0.byte list) (abbrev : Byte0.byte list) : string =
+let model_line ~nav ~key dbg bigend types (info : Byte0.byte list) (abbrev : Byte0.byte list) : string =
   try
     if info = [] then "nounit" else
     let (h, _) = must (DieRd.parse_unit_header bigend types BinNums.N0 info) in
     let hdr = "hdr=" ^ show_hdr dbg h in
     match r3 (AbbrevRd.abbreviations_at dbg abbrev h.DieRd.u_abbrev) with
     | Error x -> "abbrev!" ^ Errnames.name x ^ " " ^ hdr ^ " abbrev=!" ^ Errnames.name x
-    | Ok tbl -> class_of (hdr ^ " " ^ model_styles ~nav dbg h tbl)
+    | Ok tbl -> class_of (hdr ^ " " ^ model_styles ~nav ~key dbg h tbl)
   with Stop s -> s
 
 (* ================================================================== generators *)
@@ -252,8 +299,9 @@ let gen_kind r ~(sib : int) : kind =
     end else attrs in
   { ktag = pick r tag_pool; ktmpl = tm }
 
-let gen_node r (e : enc) (kinds : kind array) (flag : bool) (kids : gtree list) : gtree =
-  let k = pick r kinds in
+let rec gen_node r (e : enc) (kinds : kind array) (flag : bool) (kids : gtree list) : gtree =
+  gen_node_of r e (pick r kinds) flag kids
+and gen_node_of r (e : enc) (k : kind) (flag : bool) (kids : gtree list) : gtree =
   let data = List.filter_map (function
     | TA (_, f, _, _) -> Some (GD (gen_raw r e f))
     | TS _ -> None
@@ -283,6 +331,22 @@ let gen_wide r e kinds w : gtree =
     (List.init w (fun _ ->
        if rand_int r 8 = 0 then gen_node r e kinds false [gen_node r e kinds false []]
        else gen_node r e kinds (rand_int r 5 = 0) []))
+
+(* the shape on which a wrong depth after the DW_AT_sibling fast path of EntriesTree::next shows: an entry A
+   with children and WITHOUT sibling pointer (kind kp) whose subtree holds an entry X with children
+   and WITH a (forward) sibling pointer (kind kq); A has following siblings; nested several levels.
+   A walk that does not descend into A, or leaves A after its first child, makes the parent's
+   iterator pass over X. *)
+let rec gen_trap r e (kp : kind) (kq : kind) (any : unit -> kind) (d : int) : gtree =
+  let leaf () = gen_node_of r e (any ()) (rand_int r 4 = 0) [] in
+  let opt p f = if rand_int r p = 0 then [f ()] else [] in
+  let inner () = if d > 0 && rand_bool r then [gen_trap r e kp kq any (d - 1)] else [leaf ()] in
+  let x () = gen_node_of r e kq false (inner () @ opt 2 leaf) in
+  let a () = gen_node_of r e kp false (opt 2 leaf @ [x ()] @ opt 3 x @ opt 2 leaf) in
+  let before = List.init (rand_int r 2) (fun _ -> leaf ()) in
+  let after = List.init (1 + rand_int r 2) (fun _ ->
+    if d > 0 && rand_int r 3 = 0 then gen_trap r e kp kq any (d - 1) else leaf ()) in
+  gen_node_of r e kp false (before @ [a ()] @ after)
 
 (* size classes: small (<= ~8 entries, for the exhaustive-offset stream), medium, large (deep chains to
    300, up to 200 siblings) *)
@@ -478,7 +542,7 @@ let build_unit r ?(scheme = -1) (h0 : uheader) types bigend (f0 : tree list) pad
   { bigend; types; hdr = h; enc = e; codes; forest = f; pad; info; abbrev; body }
 
 (* the expected line of a well-formed unit, from Spec/Forest.v *)
-let spec_line (u : unit_case) : string =
+let spec_line ?(key = 0) (u : unit_case) : string =
   let hl = header_len u.hdr in
   let nbuf = List.length u.body in
   let hdr = show_hdr_fields ~off:"0" ~len:(sn (unit_length_of u.bigend u.hdr (n_of_int nbuf)))
@@ -494,21 +558,20 @@ let spec_line (u : unit_case) : string =
   let idx = sample_indices n in
   let per f = join ";" (List.map (fun i -> let (d, dep, s, sub) = ents.(i) in spf "%s>%s" (sn d.d_offset) (f i d dep s sub)) idx) in
   let sib_s = per (fun _ _ _ s _ -> join "," (List.map Z.to_string s)) in
-  let walk_s = join ";" (List.map (fun d -> spf "%s:%s:%s" (sn d.d_offset) (sz d.d_depth) (sn d.d_tag)) pre) in
+  (* the cloned-cursor walk: every top-level entry; everything, and the sub-forest selected by `key`
+     (Spec/ForestSel.v) *)
+  let walk_one sel = join ";" (List.map show_odt (ForestSel.sel_list u.codes sel BinNums.Z0 hl big_nat u.forest)) in
+  let walk_all = walk_one sel_all in
+  let walk_s = walk_all ^ "|" ^ walk_one (sel_of_key key) in
+  if walk_all <> join ";" (List.map show_odt pre) then failwith "s_c02: sel_all is not the preorder";
   let tree_s = match u.forest with
     | t :: _ -> join ";" (List.map show_die (pre_tree u.codes BinNums.Z0 hl t))
     | [] -> "?" in
-  let skip_s = match u.forest with
-    | t :: _ ->
-      let rec visit off depth (t : tree) : string list =
-        let me = spf "%s:%d" (sn off) depth in
-        if Z.sign (Z.rem (z_of_n off) (Z.of_int 3)) = 0 then [me]
-        else me :: visit_list (kids_off u.codes off t) (depth + 1) (t_kids t)
-      and visit_list off depth ts = match ts with
-        | [] -> []
-        | k :: r -> visit off depth k @ visit_list (zadd off (tree_size u.codes k)) depth r in
-      join "," (visit hl 0 t)
+  (* the tree iterator started at the first entry: the sub-forest selected by strategy 0 and by `key` *)
+  let skip_one k = match u.forest with
+    | t :: _ -> join "," (List.map show_od (ForestSel.sel_tree u.codes (sel_of_key k) BinNums.Z0 hl t))
     | [] -> "?" in
+  let skip_s = skip_one 0 ^ "|" ^ skip_one key in
   let at_s = per (fun _ d _ _ _ -> show_die { d with d_depth = BinNums.Z0 }) in
   let from_s = per (fun i _ dep _ _ ->
     join "," (List.filteri (fun j _ -> j >= i) (Array.to_list ents)
@@ -529,16 +592,22 @@ let first_diff (a : string) (b : string) : string =
     | _ -> "length" in
   go ta tb
 
-let case_line stream bigend types info abbrev =
-  spf "%s %d %d %s %s" stream (b01 bigend) (b01 types) (hex_of_bytes info) (hex_of_bytes abbrev)
+let case_line ?(key = 0) stream bigend types info abbrev =
+  spf "%s %d %d %s %s %d" stream (b01 bigend) (b01 types) (hex_of_bytes info) (hex_of_bytes abbrev) key
 
-let gen_wellformed r ~(size : int) : unit_case =
+let gen_wellformed ?(trap = false) r ~(size : int) : unit_case =
   let (h0, types) = gen_uheader r in
   let bigend = rand_bool r in
   let e = { version = h0.uh_version; fmt64 = h0.uh_fmt64; address_size = h0.uh_asize; be = bigend } in
   let sib = rand_int r 3 in
   let kinds = Array.init (1 + rand_int r 6) (fun _ -> gen_kind r ~sib) in
-  let (g, pad) = gen_forest r e kinds ~size in
+  let (g, pad) =
+    if trap then begin
+      let kp = gen_kind r ~sib:0 and kq = gen_kind r ~sib:1 in
+      let pool = Array.append kinds [| kp; kq |] in
+      let t = gen_trap r e kp kq (fun () -> pick r pool) (1 + rand_int r 3) in
+      ((if rand_int r 4 = 0 then [t; gen_node r e pool false []] else [t]), (if rand_int r 4 = 0 then 1 + rand_int r 3 else 0))
+    end else gen_forest r e kinds ~size in
   let f = to_tree e (fun _ _ -> Z.zero) g in
   build_unit r h0 types bigend f pad
 
@@ -776,14 +845,19 @@ let () =
 (* ---- forests ---- *)
 let () =
   register "c02.forest"
-    ~doc:"well-formed units written by the spec encoder enc_forest: random trees, deep chains (to 300), combs, 0..200 siblings, empty child lists, several top-level entries, null padding; every unit kind / version 2-5 / format / address size / byte order; DW_AT_sibling on none / all / a random subset of abbreviations at any attribute position, widths ref1/2/4/8; abbreviation code schemes sequential, reversed, permuted, sparse, gap, huge; attributes of 30 forms incl. indirect and implicit_const. Expected = preorder of Spec/Forest.v, every navigation style"
+    ~doc:"well-formed units written by the spec encoder enc_forest: random trees, deep chains (to 300), combs, 0..200 siblings, empty child lists, several top-level entries, null padding; every unit kind / version 2-5 / format / address size / byte order; DW_AT_sibling on none / all / a random subset of abbreviations at any attribute position, widths ref1/2/4/8; abbreviation code schemes sequential, reversed, permuted, sparse, gap, huge; attributes of 30 forms incl. indirect and implicit_const; every fourth unit is the shape on which a wrong depth after the DW_AT_sibling fast path shows (a child without sibling pointer whose subtree holds a has-children entry with one, following siblings, nested up to 4 levels). Expected = preorder of Spec/Forest.v, every navigation style; the partial traversals (tokens skip = tree iterator, walk = cloned cursors) under two selection strategies per unit (skip subtrees / stop after 0, 1, 2 children / the on-purpose ones: do not descend into, or leave after the first child, every entry that has children but no DW_AT_sibling), expected = sel_tree / sel_list of Spec/ForestSel.v"
     (fun ~seed ~n emit ->
       sharded ~seed ~n emit (fun i r ->
-        let u = gen_wellformed r ~size:(match rand_int r 8 with 0 | 1 | 2 -> 0 | 3 -> 2 | _ -> 1) in
-        (case_line "c02.forest" u.bigend u.types u.info u.abbrev, fun dbg ->
-          let spec = spec_line u in
-          let m = model_line ~nav:false dbg u.bigend u.types u.info u.abbrev in
-          if m = without_walk spec then spec else "model-inconsistent " ^ first_diff m (without_walk spec))));
+        let trap = i mod 4 = 3 in
+        let u = gen_wellformed ~trap r ~size:(match rand_int r 8 with 0 | 1 | 2 -> 0 | 3 -> 2 | _ -> 1) in
+        (* strategy key: never 0; the on-purpose strategies (1, 2 mod 4) on three quarters of the trap shapes *)
+        let key = 1 + rand_int r 1000000 in
+        let key = if trap && i mod 16 <> 15 then (key land (lnot 3)) lor (1 + rand_int r 2) else key in
+        let spec = lazy (spec_line ~key u) in      (* does not depend on the build mode *)
+        (case_line ~key "c02.forest" u.bigend u.types u.info u.abbrev, fun dbg ->
+          let spec = Lazy.force spec in
+          let m = model_line ~nav:false ~key dbg u.bigend u.types u.info u.abbrev in
+          if m = spec then spec else "model-inconsistent " ^ first_diff m spec)));
 
   register "c02.nav"
     ~doc:"small units with one defect, every navigation style printed in full from every byte offset: DW_AT_sibling values pointing backwards / at the entry itself / mid-entry / past a sibling / out of range / 2^32-1 with forms ref1/2/4/8/ref_addr/data4/udata, abbreviation codes missing from the table, truncated bodies (missing terminators), premature and surplus null entries, byte flips in body, header and abbreviations, empty units, duplicate abbreviation codes"
@@ -791,8 +865,9 @@ let () =
       sharded ~seed ~n emit (fun _ r ->
       let result = ref None in
       let run bigend types info abbrev =
-        result := Some (case_line "c02.nav" bigend types info abbrev, fun dbg ->
-          model_line ~nav:true dbg bigend types info abbrev) in
+        let key = 1 + rand_int r 1000000 in
+        result := Some (case_line ~key "c02.nav" bigend types info abbrev, fun dbg ->
+          model_line ~nav:true ~key dbg bigend types info abbrev) in
       let mut_bytes (l : Byte0.byte list) : Byte0.byte list =
         let a = Array.of_list (List.map int_of_byte l) in
         let len = Array.length a in
